@@ -10,6 +10,32 @@ import (
 // TestZZVerifScenario runs the hand-written witness or scenario registered for the obligations
 // named in VERIF_OBLIGATIONS (newline separated; empty = all) against the real code.
 func TestZZVerifScenario(t *testing.T) {
+	if prop := os.Getenv("VERIF_SCENARIO_PROP"); prop != "" {
+		// every scenario registered for the property, once, under its own key
+		for _, w := range verifC17Witnesses {
+			if !strings.HasPrefix(w.Obligation, prop+"/") {
+				continue
+			}
+			got, exp := w.Run()
+			if fmt.Sprint(got) != fmt.Sprint(exp) {
+				fmt.Printf("SCENARIO-MISMATCH %s — real code: %v, reference: %v\n", w.Obligation, got, exp)
+			} else {
+				fmt.Printf("SCENARIO-OK %s\n", w.Obligation)
+			}
+		}
+		for _, s := range verifProtocolScenarios {
+			if !strings.HasPrefix(s.Obligation, prop+"/") {
+				continue
+			}
+			bad, d := s.Run()
+			if bad {
+				fmt.Printf("SCENARIO-MISMATCH %s — %s\n", s.Obligation, d)
+			} else {
+				fmt.Printf("SCENARIO-OK %s — %s\n", s.Obligation, d)
+			}
+		}
+		return
+	}
 	want := map[string]bool{}
 	for _, o := range strings.Split(os.Getenv("VERIF_OBLIGATIONS"), "\n") {
 		if o = strings.TrimSpace(o); o != "" {
